@@ -1278,3 +1278,28 @@ Lemma series_during_indexed_t0 {A} (s : series A) e k e' r :
 Proof.
   intros G D. apply epochs_getitem_keeps in G as [O _]. apply series_during_t0 in D as [T _]. congruence.
 Qed.
+
+(* ================================================================ integer selection on time arrays / axes *)
+Lemma tarr_getint_spec self k :
+  let n := Z.of_nat (length (payload self)) in
+  (0 <= k < n -> exists x, nth_error (payload self) (Z.to_nat k) = Some x /\ tarr_getint self k = XOk (mk_tarr [x] (tunit self) true)) /\
+  (- n <= k < 0 -> exists x, nth_error (payload self) (Z.to_nat (k + n)) = Some x /\ tarr_getint self k = XOk (mk_tarr [x] (tunit self) true)) /\
+  (k < - n \/ n <= k -> tarr_getint self k = XErr XIndex).
+Proof.
+  intros n. destruct (getz_spec (payload self) k) as (H1 & H2 & H3). fold n in H1, H2, H3. unfold tarr_getint.
+  repeat split; intros H.
+  - rewrite (H1 H). unfold getn. destruct (nth_error (payload self) (Z.to_nat k)) as [x|] eqn:E.
+    + exists x. split; reflexivity.
+    + apply nth_error_None in E. unfold n in H. lia.
+  - rewrite (H2 H). unfold getn. destruct (nth_error (payload self) (Z.to_nat (k + n))) as [x|] eqn:E.
+    + exists x. split; reflexivity.
+    + apply nth_error_None in E. unfold n in *. lia.
+  - rewrite (H3 H). reflexivity.
+Qed.
+
+Lemma uaxis_getint_sample t0 dt n u k : (k < n)%nat ->
+  uaxis_getint (uaxis_of t0 dt n u) (Z.of_nat k) = XOk (mk_tarr [t0 + Z.of_nat k * dt] u true).
+Proof.
+  intros Lt. unfold uaxis_getint. rewrite (getz_of _ _ (t0 + Z.of_nat k * dt)); [reflexivity|lia|].
+  rewrite Nat2Z.id. simpl. apply (nth_error_map_seq (fun i => t0 + Z.of_nat i * dt)). exact Lt.
+Qed.
